@@ -17,6 +17,7 @@ from auverif import core  # noqa: E402
 REGISTRY = {
     "C03": ("auverif.props.c03", "run_c03"),
     "C04": ("auverif.props.c03", "run_c04"),
+    "C12": ("auverif.props.c12", "run"),
 }
 
 
